@@ -41,3 +41,26 @@ Theorem C10_maximum_read_length : forall m,
   maximum_read_length m = Ok (Z.min (m - ACK_HEADER_LENGTH) 65535).
 Proof. exact maximum_read_length_spec. Qed.
 Print Assumptions C10_maximum_read_length.
+
+(* TIE TO THE SOURCE CODE.  gen/ReadChunks.v is regenerated on every run by tools/translate_chunks.py from
+   ReadMem::chunks, ReadMemChunks::next (an iterator mutating its fields: executed symbolically, fields threaded through
+   `-=`, `+=`, `=`, `as` casts) and ReadMem::maximum_read_length of device/src/u3v/protocol/cmd.rs, over lib/RustInt.v.
+   They are the model's functions, for every value of the fields' types - so the partition theorems above are about
+   what the source says now. *)
+From Cam Require Import RustInt ReadChunks P_C10s.
+
+Theorem C10_read_init_from_source : forall a l ack,
+  read_chunks_init a l ack = omap rstate_of (src_read_chunks_init a l ack).
+Proof. exact read_init_from_source. Qed.
+Print Assumptions C10_read_init_from_source.
+
+Theorem C10_read_next_from_source : forall a l m,
+  0 <= a < 2 ^ 64 -> 0 <= l < 2 ^ 16 -> 0 <= m < 2 ^ 64 ->
+  read_next {| r_addr := a; r_len := l; r_max := m |} = omap next_of (src_read_next a l m).
+Proof. exact read_next_from_source. Qed.
+Print Assumptions C10_read_next_from_source.
+
+Theorem C10_maximum_read_length_from_source : forall n, 0 <= n < 2 ^ 64 ->
+  maximum_read_length n = src_maximum_read_length n.
+Proof. exact maximum_read_length_from_source. Qed.
+Print Assumptions C10_maximum_read_length_from_source.
